@@ -59,3 +59,9 @@ add('C06', 'Hypothesis-generated spectra / gradients / radii / preconditioners /
     'independent eigen-decomposition and bracketed secular root with explicit hard case; non-termination is detected by a double time limit.',
     'Dense numpy/scipy reference; boundary norm tolerance 1e-5 (recurrence drift), model-value tolerance 1e-7*(|m*| + |g| radius); a treigen call that does not return '
     'within 15 s and again within 45 s counts as a violation (typical call: milliseconds).')
+add('C08', 'Hypothesis-generated material constants, deformation-gradient classes and rotations for every model/option; metamorphic oracle (superposed and reference rotations) and rest-state oracle, single and batched execution',
+    'Generated search over all 33 model/option configurations with admissible constants, seven deformation classes (including two or three equal principal '
+    'stretches) over eight decades of strain and generic / in-plane rotations; W(QF)=W(F), W(FQ)=W(F), P F^T symmetric for finite-deformation formulations, '
+    'W(0)=P(0)=0 and finiteness for every option, evaluated by a single compiled call and inside jit(vmap). Sampling.',
+    'Rounding allowance 1e3*ulp*K*max(e,e^2) + 50*ulp*K; plastic models only in their elastic regime; the model factories are called inside the compiled function '
+    'with traced constants (as the inverse-problem code does); D1 covers only compiled-vs-op-by-op discrepancies at relative stretch gap < 1e-4.')
